@@ -118,6 +118,12 @@ type Scenario struct {
 	MaxInvisible int
 	// NoSelectForcing disables enumeration of ready select cases.
 	NoSelectForcing bool
+	// RepeatKey, if non-empty, declares that the executions of this scenario
+	// share an object under test on purpose (C10: one compiled artefact run
+	// again and again). If the same schedule then gives two different
+	// executions, that is a violation with this key (the object carried state
+	// from one execution to the next), not a harness error.
+	RepeatKey string
 	// Prepare, if set, runs before every execution OUTSIDE the bubble and with
 	// the hook inactive (build artefacts, compute references; use a sync.Once).
 	Prepare func()
@@ -677,6 +683,15 @@ func Explore(t *testing.T, sc *Scenario, maxExec int) Stats {
 	// determinism obligation: the default schedule twice
 	x1, o1 := runOne(t, sc, nil)
 	x2, o2 := runOne(t, sc, nil)
+	if (fmt.Sprint(traceOf(x1)) != fmt.Sprint(traceOf(x2)) || o1 != o2) && sc.RepeatKey != "" {
+		st.Executions = 2
+		st.Transitions = len(x1.Points) + len(x2.Points)
+		st.States = len(x1.Points)
+		st.BoundDone = -1
+		st.Failures = append(st.Failures, Fail{Key: sc.RepeatKey, Choices: x2.Choices, Trace: traceOf(x2),
+			Detail: fmt.Sprintf("the default schedule was executed twice on the same object under test and the two executions differ:\nfirst:  %s\nsecond: %s\nfirst trace:  %v\nsecond trace: %v", o1, o2, traceOf(x1), traceOf(x2))})
+		return st
+	}
 	if fmt.Sprint(traceOf(x1)) != fmt.Sprint(traceOf(x2)) || o1 != o2 {
 		st.Harness = append(st.Harness, fmt.Sprintf("nondeterministic default schedule in %s:\n%v\n%v\nobs %q vs %q", sc.Name, traceOf(x1), traceOf(x2), o1, o2))
 		return st
